@@ -538,7 +538,7 @@ static void op_put(struct mon_rng *r, uint32_t cls) {
     }
     uint32_t victim_cls = overflow ? s_m[victim_pos].cls : 0;
 
-    aws_reset_error();
+    mon_poison_last_error(&mon_case_rng);
     int rc = real_put(k, v);
     if (rc != AWS_OP_SUCCESS) {
         VIOL("C18:put-failed", "%s returned %d (error %d)", s_op, rc, aws_last_error());
@@ -653,7 +653,7 @@ static void op_find(struct mon_rng *r, uint32_t cls, bool move_to_back) {
     snprintf(s_op, sizeof(s_op), "%s(c%u,%s)", move_to_back ? "find_and_move_to_back" : "find", cls, stored ? "stored-ptr" : "probe");
     mon_sample(" %s", s_op);
     void *out = (void *)&s_op; /* neither NULL nor a value */
-    aws_reset_error();
+    mon_poison_last_error(&mon_case_rng);
     int rc = move_to_back ? aws_linked_hash_table_find_and_move_to_back(s_t, probe, &out) : real_find(probe, &out);
     void *expect = mi >= 0 ? (void *)s_m[mi].v : NULL;
     if (rc != AWS_OP_SUCCESS) {
@@ -683,7 +683,7 @@ static void op_remove(struct mon_rng *r, uint32_t cls) {
     mon_fp(cls);
     snprintf(s_op, sizeof(s_op), "remove(c%u,%s)%s", cls, stored ? "stored-ptr" : "probe", mi >= 0 ? "" : "[absent]");
     mon_sample(" %s", s_op);
-    aws_reset_error();
+    mon_poison_last_error(&mon_case_rng);
     int rc = real_remove(probe);
     CHECK(rc == AWS_OP_SUCCESS, "C18:remove-failed", "%s returned %d (error %d)", s_op, rc, aws_last_error());
     if (mi >= 0) {
@@ -866,6 +866,9 @@ static void run_case(void) {
     bool broken = false;
     size_t max_entries = 0;
     for (size_t op = 0; op < nops; ++op) {
+        if (mon_chance(r, 1, 3)) {
+            mon_poison_last_error(r);
+        }
         unsigned phase = (unsigned)((op * 4) / nops);
         unsigned put_w = (phase == 0 || phase == 2) ? 55 : 35;
         unsigned pick = (unsigned)mon_below(r, 100);
